@@ -584,7 +584,8 @@ func (f *FuncCall) Token() *lexer.Token {
 
 // Type returns the return type of the called function.
 func (f *FuncCall) Type() *Type {
-	return f.FuncDef.ReturnType
+	// a call result is not a literal: it cannot be coerced to another composite type
+	return fixedType(f.FuncDef.ReturnType)
 }
 
 // UnaryExpression is an AST node that represents a unary expression,
